@@ -19,7 +19,7 @@ struct Out {
     keep: Vec<RawPeer>,
     keepl: Vec<RawListener>,
     refused_after: Vec<(String, bool)>,
-    ipc_path: Option<String>,
+    ipc_paths: Vec<String>,
 }
 
 fn lifecycle(ctx: &mut Ctx) {
@@ -34,6 +34,8 @@ fn lifecycle(ctx: &mut Ctx) {
         world::swarm(ctx, SwarmOpts::default());
     }
     let fail_unlink = tr == 3 && use_close && ctx.idx >= 432 && ctx.plan(4) == 0;
+    // beyond the undisturbed grid, one case in three binds a second endpoint on another transport
+    let second_bind = ctx.idx >= 432 && !fail_unlink && ctx.plan(3) == 0;
     let npeers = 1 + ctx.plan(2) as usize;
     let out = Rc::new(RefCell::new(Out::default()));
     let o2 = out.clone();
@@ -43,13 +45,35 @@ fn lifecycle(ctx: &mut Ctx) {
         let mut sock = AnySock::new(kind, None);
         let bind_to = if tr == 3 { format!("ipc:///tmp/zsim-{idx}.sock") } else { TRANSPORTS[tr].to_string() };
         if tr == 3 {
-            o2.borrow_mut().ipc_path = Some(format!("/tmp/zsim-{idx}.sock"));
+            o2.borrow_mut().ipc_paths.push(format!("/tmp/zsim-{idx}.sock"));
         }
         let ep = match sock.bind(&bind_to).await {
             Ok(e) => e.to_string(),
             Err(_) => return world::park().await,
         };
         o2.borrow_mut().endpoints.push(ep.clone());
+        if second_bind {
+            let other = if tr == 3 { "tcp://127.0.0.1:0".to_string() } else { format!("ipc:///tmp/zsim-{idx}-b.sock") };
+            if let Ok(e) = sock.bind(&other).await {
+                if tr != 3 {
+                    o2.borrow_mut().ipc_paths.push(format!("/tmp/zsim-{idx}-b.sock"));
+                }
+                // a peer on the second endpoint as well, where the history has peers at all
+                let e = e.to_string();
+                if matches!(prefix, 1 | 3 | 4) {
+                    if let Ok(mut peer) = RawPeer::connect(&e) {
+                        let _ = peer.hello(peer_type, Some(b"second")).await;
+                        if matches!(kind, Kind::Pub | Kind::Xpub) {
+                            let _ = peer.send_msg(&[vec![1]]).await;
+                        }
+                        o2.borrow_mut().conns.push((peer.conn.clone(), 1, "accepted"));
+                        o2.borrow_mut().keep.push(peer);
+                    }
+                }
+                o2.borrow_mut().endpoints.push(e);
+                rt::count("probe_second_endpoint_bound");
+            }
+        }
         let mut peers: Vec<RawPeer> = Vec::new();
         if matches!(prefix, 1 | 3 | 4) {
             for p in 0..npeers {
@@ -169,7 +193,7 @@ fn lifecycle(ctx: &mut Ctx) {
                 ctx.violation(&key("listener_still_registered"), format!("{tag}: the listener for {e} still exists"));
             }
         }
-        if let Some(p) = &o.ipc_path {
+        for p in &o.ipc_paths {
             let exists = ctx.sim.rt.net.borrow().file_exists(std::path::Path::new(p));
             if exists && !fail_unlink {
                 ctx.violation(&key("ipc_file_not_removed"), format!("{tag}: the socket file {p} still exists"));
@@ -205,7 +229,7 @@ pub fn def() -> PropDef {
     PropDef {
         id: "C17",
         level: "fault_enumeration",
-        rule: "the case index enumerates the grid socket type (9) x transport {tcp v4, tcp v6, tcp localhost, ipc} x history prefix {bound only, bound + accepted peers, connected out, mid-traffic, receiver has parked once, handshake pending} x {close().await, drop} = 432 cells, first undisturbed, then repeatedly under drawn transport/schedule (and an injected unlink failure for some ipc/close cells); judged in the simulated network and file namespaces: listeners gone and fresh connects refused (at close() return, resp. at quiescence after drop), socket file removed, every peer connection closed by the socket, no library-spawned task alive; distinct = distinct (cell, plan, schedule, transport)",
+        rule: "the case index enumerates the grid socket type (9) x transport {tcp v4, tcp v6, tcp localhost, ipc} x history prefix {bound only, bound + accepted peers, connected out, mid-traffic, receiver has parked once, handshake pending} x {close().await, drop} = 432 cells, first undisturbed, then repeatedly under drawn transport/schedule (an injected unlink failure for some ipc/close cells; a second bound endpoint on another transport, with its own peer, in one case in three); judged in the simulated network and file namespaces: listeners gone and fresh connects refused (at close() return, resp. at quiescence after drop), socket file removed, every peer connection closed by the socket, no library-spawned task alive; distinct = distinct (cell, plan, schedule, transport)",
         assumptions: &["TCP ports and IPC files are those of the simulator's namespaces, reached through the real transport/tcp.rs, transport/ipc.rs, lib.rs and task_handle.rs code; the kernel and the tokio-gated glue lines are not exercised", "'shortly afterwards' for drop = by the time the simulation is quiescent"],
         strata: vec![Stratum { name: "lifecycle", quick: 432 * 80, thorough: (432 * 1200) * 20, exhaustive: (true, true), run: lifecycle, what: "432-cell grid of socket type x transport x history x close/drop" }],
     }
